@@ -238,6 +238,15 @@ class TableEval:
                 self.bad(n, "abs operand")
             if f == "get_dflt_rounding_mode" and not n.args:
                 return Mode(self.default_mode)
+            if isinstance(n.func, ast.Name) and n.func.id in self.fi.module.functions and self.depth < 3:
+                return self.inline(self.fi.module.functions[n.func.id], [self.ev(a) for a in n.args],
+                                   {k.arg: self.ev(k.value) for k in n.keywords}, n)
+            if f in ("int", "bool") and len(n.args) == 1:
+                v = self.ev(n.args[0])
+                if isinstance(v, bool):
+                    return Fraction(int(v)) if f == "int" else v
+                if isinstance(v, Fraction) and v.denominator == 1:
+                    return v if f == "int" else (v != 0)
             self.bad(n, "call")
         if isinstance(n, ast.BinOp):
             l, r = self.ev(n.left), self.ev(n.right)
@@ -268,7 +277,41 @@ class TableEval:
             return self.ev(n.body) if self.truth(self.ev(n.test), n.test) else self.ev(n.orelse)
         self.bad(n, "expression")
 
+    depth = 0
+
+    def inline(self, callee, args, kwargs, node):
+        """Evaluate a module-level helper in the same abstract domain (extracted sub-expressions)."""
+        a = callee.node.args
+        params = [p.arg for p in a.args]
+        defaults = [None] * (len(params) - len(a.defaults)) + list(a.defaults)
+        saved_env, saved_fi = self.env, self.fi
+        env = {}
+        for i, p in enumerate(params):
+            if i < len(args):
+                env[p] = args[i]
+            elif p in kwargs:
+                env[p] = kwargs[p]
+            elif defaults[i] is not None:
+                env[p] = self.ev(defaults[i])
+            else:
+                self.bad(node, "helper call arity")
+        self.env, self.fi = env, callee
+        self.depth += 1
+        try:
+            try:
+                self.block(callee.node.body)
+            except Ret as r:
+                return r.v
+            return None
+        finally:
+            self.depth -= 1
+            self.env, self.fi = saved_env, saved_fi
+
     def binop(self, op, l, r, n):
+        if isinstance(l, bool):
+            l = Fraction(int(l))
+        if isinstance(r, bool):
+            r = Fraction(int(r))
         if isinstance(l, Fraction) and isinstance(r, Fraction):
             if isinstance(op, ast.Add):
                 return l + r
